@@ -1,2 +1,506 @@
-(* placeholder *)
+(* ServerProofs: invariants and theorems for the one-shot server rendezvous model (model/Server.v).  No axioms. *)
+From Coq Require Import List Arith Bool Lia Setoid.
+Import ListNotations.
 From IPC Require Import Server.
+
+Notation dsrv := {| listening := false; backlog := []; dir := false; accepted := None |}.
+Notation dconn := {| queue := []; hup := true; sent := []; got := [] |}.
+Notation newsrv := {| listening := true; backlog := []; dir := true; accepted := None |}.
+
+(* ---------- list facts ---------- *)
+
+Lemma length_set_nth {X} (l : list X) i v : length (set_nth l i v) = length l.
+Proof. revert i; induction l; destruct i; simpl; auto. Qed.
+
+Lemma nth_set_nth {X} (l : list X) i j v d :
+  i < length l -> nth j (set_nth l i v) d = if Nat.eqb j i then v else nth j l d.
+Proof.
+  revert i j; induction l; intros i j H; simpl in *; [lia|].
+  destruct i, j; simpl; auto. apply IHl; lia.
+Qed.
+
+Lemma nth_set_nth_eq {X} (l : list X) i v d : i < length l -> nth i (set_nth l i v) d = v.
+Proof. intros H. rewrite nth_set_nth by auto. rewrite Nat.eqb_refl. reflexivity. Qed.
+
+Lemma nth_set_nth_neq {X} (l : list X) i j v d : i < length l -> j <> i -> nth j (set_nth l i v) d = nth j l d.
+Proof. intros H N. rewrite nth_set_nth by auto. apply Nat.eqb_neq in N. rewrite N. reflexivity. Qed.
+
+Lemma In_remove x y l : In y (remove x l) <-> In y l /\ y <> x.
+Proof.
+  unfold remove. rewrite filter_In, negb_true_iff, Nat.eqb_neq.
+  split; intros [A B]; split; auto.
+Qed.
+
+Lemma NoDup_rm x l : NoDup l -> NoDup (remove x l).
+Proof. apply NoDup_filter. Qed.
+
+Lemma remove_notin x l : ~ In x l -> remove x l = l.
+Proof.
+  unfold remove. induction l as [|a l IH]; simpl; intros H; auto.
+  destruct (Nat.eqb x a) eqn:E; simpl.
+  - apply Nat.eqb_eq in E. subst. tauto.
+  - f_equal. apply IH. tauto.
+Qed.
+
+Lemma length_remove x l : NoDup l -> In x l -> length (remove x l) = pred (length l).
+Proof.
+  induction 1 as [|a t Hn Hd IH]; intros Hin; [destruct Hin|].
+  unfold remove in *. simpl. destruct (Nat.eqb x a) eqn:E; simpl.
+  - apply Nat.eqb_eq in E. subst. f_equal. apply remove_notin; auto.
+  - apply Nat.eqb_neq in E. destruct Hin as [Hin|Hin]; [congruence|].
+    rewrite IH by auto. destruct t; simpl in *; [tauto|lia].
+Qed.
+
+Lemma NoDup_snoc (x : nat) l : NoDup l -> ~ In x l -> NoDup (l ++ [x]).
+Proof.
+  induction 1 as [|a t Hn Hd IH]; simpl; intros Hx.
+  - constructor; auto. constructor.
+  - constructor.
+    + rewrite in_app_iff. simpl. intuition.
+    + apply IH. tauto.
+Qed.
+
+Ltac grd H :=
+  match type of H with
+  | (if ?b then _ else _) = _ => let G := fresh "G" in destruct b eqn:G; [|discriminate H]
+  end.
+Ltac splitG :=
+  repeat match goal with G : _ && _ = true |- _ => apply andb_true_iff in G; destruct G end;
+  repeat match goal with G : (_ <? _) = true |- _ => apply Nat.ltb_lt in G end.
+Ltac inv H := inversion H; subst; clear H.
+
+(* ---------- model facts ---------- *)
+
+Lemma queue_nonempty_lt s k x q : queue (gconn s k) = x :: q -> k < length (conns s).
+Proof.
+  intros H. destruct (lt_dec k (length (conns s))); auto.
+  unfold gconn in H. rewrite nth_overflow in H by lia. discriminate.
+Qed.
+
+Lemma snoc_bl l m : backlog (nth m (l ++ [newsrv]) dsrv) = backlog (nth m l dsrv).
+Proof.
+  destruct (lt_dec m (length l)).
+  - rewrite app_nth1 by auto. reflexivity.
+  - rewrite (nth_overflow l) by lia. destruct (Nat.eq_dec m (length l)).
+    + subst. rewrite app_nth2 by lia. rewrite Nat.sub_diag. reflexivity.
+    + rewrite nth_overflow; auto. rewrite app_length. simpl. lia.
+Qed.
+
+Lemma snoc_acc l m : accepted (nth m (l ++ [newsrv]) dsrv) = accepted (nth m l dsrv).
+Proof.
+  destruct (lt_dec m (length l)).
+  - rewrite app_nth1 by auto. reflexivity.
+  - rewrite (nth_overflow l) by lia. destruct (Nat.eq_dec m (length l)).
+    + subst. rewrite app_nth2 by lia. rewrite Nat.sub_diag. reflexivity.
+    + rewrite nth_overflow; auto. rewrite app_length. simpl. lia.
+Qed.
+
+Lemma run_inv (P : st -> Prop) :
+  (forall s l s', P s -> step s l = Some s' -> P s') ->
+  forall ls s0 s, P s0 -> run s0 ls = Some s -> P s.
+Proof.
+  intros Hstep. induction ls as [|a ls IH]; simpl; intros s0 s H0 H.
+  - inv H. auto.
+  - destruct (step s0 a) eqn:E; [|discriminate]. eapply IH; [|eauto]. eauto.
+Qed.
+
+(* ---------- invariant 1: per-connection FIFO ---------- *)
+
+Definition Fifo s := forall k, k < length (conns s) -> got (gconn s k) ++ queue (gconn s k) = sent (gconn s k).
+
+Lemma Fifo_step s l s' : Fifo s -> step s l = Some s' -> Fifo s'.
+Proof.
+  intros I H k Hk. destruct l; unfold step in H.
+  - inv H. apply I. auto.
+  - grd H. inv H. unfold gconn. simpl in *. rewrite app_length in Hk. simpl in Hk.
+    destruct (lt_dec k (length (conns s))).
+    + rewrite app_nth1 by lia. apply I. auto.
+    + rewrite app_nth2 by lia. replace (k - length (conns s)) with 0 by lia. reflexivity.
+  - grd H. splitG. cbv zeta in H. inv H. unfold gconn. simpl in *. rewrite length_set_nth in Hk.
+    rewrite nth_set_nth by lia. destruct (Nat.eqb k k0) eqn:E.
+    + apply Nat.eqb_eq in E. subst. simpl. rewrite app_assoc. f_equal. apply I. auto.
+    + apply I. auto.
+  - grd H. splitG. cbv zeta in H. inv H. unfold gconn. simpl in *. rewrite length_set_nth in Hk.
+    rewrite nth_set_nth by lia. destruct (Nat.eqb k k0) eqn:E.
+    + apply Nat.eqb_eq in E. subst. simpl. apply I. auto.
+    + apply I. auto.
+  - grd H. splitG.
+    destruct (backlog (gsrv s n)) as [|k0 rest] eqn:Eb; [discriminate|].
+    destruct (queue (gconn s k0)) as [|x q'] eqn:Eq; [discriminate|].
+    pose proof (queue_nonempty_lt _ _ _ _ Eq) as Hk0.
+    cbv zeta in H. inv H. unfold gconn. simpl in *. rewrite length_set_nth in Hk.
+    rewrite nth_set_nth by lia. destruct (Nat.eqb k k0) eqn:E.
+    + apply Nat.eqb_eq in E. subst. simpl. rewrite <- app_assoc. simpl.
+      specialize (I k0 Hk). rewrite Eq in I. exact I.
+    + apply I. auto.
+  - grd H. inv H. apply I. auto.
+  - grd H. splitG.
+    destruct (queue (gconn s k0)) as [|x q'] eqn:Eq; [discriminate|].
+    cbv zeta in H. inv H. unfold gconn. simpl in *. rewrite length_set_nth in Hk.
+    rewrite nth_set_nth by lia. destruct (Nat.eqb k k0) eqn:E.
+    + apply Nat.eqb_eq in E. subst. simpl. rewrite <- app_assoc. simpl.
+      specialize (I k0 Hk). rewrite Eq in I. exact I.
+    + apply I. auto.
+Qed.
+
+Lemma Fifo_init : Fifo init.
+Proof. intros k Hk. simpl in Hk. lia. Qed.
+
+(* ---------- invariant 2: file system / listeners / temp dirs ---------- *)
+
+Definition InvFS s :=
+  NoDup (fs s) /\
+  (forall n, In n (fs s) <-> n < length (servers s) /\ listening (gsrv s n) = true) /\
+  open_listeners s = length (fs s) /\
+  (forall n, n < length (servers s) -> dir (gsrv s n) = listening (gsrv s n)).
+
+Lemma InvFS_same s s' :
+  InvFS s -> length (servers s') = length (servers s) ->
+  (forall m, listening (gsrv s' m) = listening (gsrv s m)) ->
+  (forall m, dir (gsrv s' m) = dir (gsrv s m)) ->
+  fs s' = fs s -> open_listeners s' = open_listeners s -> InvFS s'.
+Proof.
+  intros (Hnd & Hiff & Hol & Hdir) El L D Ef Eo. unfold InvFS. rewrite Ef, Eo, El.
+  split; [|split; [|split]]; auto.
+  - intros m. rewrite L. apply Hiff.
+  - intros m Hm. rewrite L, D. auto.
+Qed.
+
+Lemma InvFS_close s s' n v :
+  InvFS s -> n < length (servers s) -> listening (gsrv s n) = true ->
+  listening v = false -> dir v = false ->
+  servers s' = set_nth (servers s) n v -> fs s' = remove n (fs s) ->
+  open_listeners s' = pred (open_listeners s) -> InvFS s'.
+Proof.
+  intros (Hnd & Hiff & Hol & Hdir) Hn Hl Hv Hd Es Ef Eo.
+  assert (HS : forall m, gsrv s' m = if Nat.eqb m n then v else gsrv s m).
+  { intro m. unfold gsrv. rewrite Es. apply nth_set_nth. auto. }
+  unfold InvFS. rewrite Ef, Eo, Es, length_set_nth.
+  split; [|split; [|split]].
+  - apply NoDup_rm. auto.
+  - intros m. rewrite In_remove, Hiff, HS. destruct (Nat.eqb m n) eqn:E.
+    + apply Nat.eqb_eq in E. subst. rewrite Hv. split; [intros [_ C]; congruence|intros [_ C]; discriminate].
+    + apply Nat.eqb_neq in E. tauto.
+  - rewrite length_remove; auto. apply Hiff. auto.
+  - intros m Hm. rewrite HS. destruct (Nat.eqb m n); [congruence|auto].
+Qed.
+
+Lemma InvFS_step s l s' : InvFS s -> step s l = Some s' -> InvFS s'.
+Proof.
+  intros I H. destruct l; unfold step in H.
+  - inv H. destruct I as (Hnd & Hiff & Hol & Hdir). unfold InvFS, gsrv in *. simpl.
+    split; [|split; [|split]].
+    + constructor; auto. intro Hin. apply Hiff in Hin. lia.
+    + intros m. rewrite app_length. simpl. split.
+      * intros [<-|Hin].
+        -- split; [lia|]. rewrite app_nth2 by lia. rewrite Nat.sub_diag. reflexivity.
+        -- apply Hiff in Hin. destruct Hin. split; [lia|]. rewrite app_nth1 by lia. auto.
+      * intros [Hlt Hl]. destruct (lt_dec m (length (servers s))).
+        -- right. apply Hiff. split; auto. rewrite app_nth1 in Hl by lia. auto.
+        -- left. lia.
+    + congruence.
+    + intros m. rewrite app_length. simpl. intros Hm. destruct (lt_dec m (length (servers s))).
+      * rewrite app_nth1 by lia. auto.
+      * rewrite app_nth2 by lia. replace (m - length (servers s)) with 0 by lia. reflexivity.
+  - grd H. splitG. cbv zeta in H. inv H. apply (InvFS_same s); simpl; auto.
+    + apply length_set_nth.
+    + intros m. unfold gsrv. simpl. rewrite nth_set_nth by auto. destruct (Nat.eqb m n) eqn:E; auto.
+      apply Nat.eqb_eq in E. subst. simpl. symmetry. assumption.
+    + intros m. unfold gsrv. simpl. rewrite nth_set_nth by auto. destruct (Nat.eqb m n) eqn:E; auto.
+      apply Nat.eqb_eq in E. subst. reflexivity.
+  - grd H. cbv zeta in H. inv H. apply (InvFS_same s); simpl; auto.
+  - grd H. cbv zeta in H. inv H. apply (InvFS_same s); simpl; auto.
+  - grd H. splitG.
+    destruct (backlog (gsrv s n)) as [|k0 rest] eqn:Eb; [discriminate|].
+    destruct (queue (gconn s k0)) as [|x q'] eqn:Eq; [discriminate|].
+    cbv zeta in H. inv H. eapply (InvFS_close s _ n); simpl; eauto; reflexivity.
+  - grd H. splitG. inv H. eapply (InvFS_close s _ n); simpl; eauto; reflexivity.
+  - grd H. destruct (queue (gconn s k)) as [|x q'] eqn:Eq; [discriminate|].
+    cbv zeta in H. inv H. apply (InvFS_same s); simpl; auto.
+Qed.
+
+Lemma InvFS_init : InvFS init.
+Proof.
+  unfold InvFS. simpl. split; [constructor|split; [|split]]; auto.
+  - intros n. split; [tauto|lia].
+  - intros n Hn. lia.
+Qed.
+
+(* ---------- invariant 3: structure of the backlogs (unconditional) ---------- *)
+
+Definition InvBS s :=
+  (forall n k, In k (backlog (gsrv s n)) -> k < length (conns s)) /\
+  (forall n, NoDup (backlog (gsrv s n))) /\
+  (forall n1 n2 k, In k (backlog (gsrv s n1)) -> In k (backlog (gsrv s n2)) -> n1 = n2) /\
+  (forall n k, accepted (gsrv s n) = Some k -> k < length (conns s) /\ forall m, ~ In k (backlog (gsrv s m))).
+
+Lemma InvBS_same s s' :
+  InvBS s -> length (conns s') = length (conns s) ->
+  (forall m, backlog (gsrv s' m) = backlog (gsrv s m)) ->
+  (forall m, accepted (gsrv s' m) = accepted (gsrv s m) \/ accepted (gsrv s' m) = None) ->
+  InvBS s'.
+Proof.
+  intros (B1 & B2 & B3 & B4) El B A. unfold InvBS. rewrite El.
+  split; [|split; [|split]].
+  - intros n k. rewrite B. apply B1.
+  - intros n. rewrite B. apply B2.
+  - intros n1 n2 k. rewrite !B. apply B3.
+  - intros n k Hk. destruct (A n) as [E|E]; rewrite E in Hk; [|discriminate].
+    destruct (B4 n k Hk) as [L N]. split; auto. intros m. rewrite B. apply N.
+Qed.
+
+Lemma InvBS_step s l s' : InvBS s -> step s l = Some s' -> InvBS s'.
+Proof.
+  intros I H. destruct l; unfold step in H.
+  - inv H. apply (InvBS_same s); simpl; auto.
+    + intros m. unfold gsrv. simpl. apply snoc_bl.
+    + intros m. left. unfold gsrv. simpl. apply snoc_acc.
+  - grd H. splitG. cbv zeta in H. destruct I as (B1 & B2 & B3 & B4).
+    assert (HS : forall m, gsrv s' m =
+       if Nat.eqb m n then {| listening := true; backlog := backlog (gsrv s n) ++ [length (conns s)];
+                              dir := dir (gsrv s n); accepted := accepted (gsrv s n) |} else gsrv s m).
+    { intros m. inv H. unfold gsrv. simpl. apply nth_set_nth. auto. }
+    assert (L : length (conns s') = S (length (conns s))).
+    { inv H. simpl. rewrite app_length. simpl. lia. }
+    clear H. unfold InvBS. rewrite L.
+    assert (Hfresh : forall m, ~ In (length (conns s)) (backlog (gsrv s m))).
+    { intros m Hin. apply B1 in Hin. lia. }
+    split; [|split; [|split]].
+    + intros m k. rewrite HS. destruct (Nat.eqb m n) eqn:E; simpl.
+      * rewrite in_app_iff. simpl. intros [Hin|[<-|[]]]; [apply B1 in Hin|]; lia.
+      * intros Hin. apply B1 in Hin. lia.
+    + intros m. rewrite HS. destruct (Nat.eqb m n) eqn:E; simpl; auto.
+      apply NoDup_snoc; auto.
+    + intros n1 n2 k. rewrite !HS.
+      destruct (Nat.eqb n1 n) eqn:E1; destruct (Nat.eqb n2 n) eqn:E2; simpl;
+        try apply Nat.eqb_eq in E1; try apply Nat.eqb_eq in E2; subst; auto;
+        rewrite ?in_app_iff; simpl.
+      * intros [Hin|[<-|[]]] Hin2; [eapply B3; eauto|]. exfalso. eapply Hfresh; eauto.
+      * intros Hin1 [Hin|[<-|[]]]; [eapply B3; eauto|]. exfalso. eapply Hfresh; eauto.
+      * apply B3.
+    + intros m k. rewrite HS. intros Hk.
+      assert (Hk' : exists m', accepted (gsrv s m') = Some k).
+      { destruct (Nat.eqb m n); simpl in Hk; eauto. }
+      destruct Hk' as [m' Hk']. destruct (B4 _ _ Hk') as [Lk N]. split; [lia|].
+      intros m2. rewrite HS. destruct (Nat.eqb m2 n); simpl; auto.
+      rewrite in_app_iff. simpl. intros [Hin|[Heq|[]]]; [eapply N; eauto|lia].
+  - grd H. cbv zeta in H. inv H. apply (InvBS_same s); simpl; auto. apply length_set_nth.
+  - grd H. cbv zeta in H. inv H. apply (InvBS_same s); simpl; auto. apply length_set_nth.
+  - grd H. splitG.
+    destruct (backlog (gsrv s n)) as [|k0 rest] eqn:Eb; [discriminate|].
+    destruct (queue (gconn s k0)) as [|x q'] eqn:Eq; [discriminate|].
+    cbv zeta in H. destruct I as (B1 & B2 & B3 & B4).
+    assert (HS : forall m, gsrv s' m =
+       if Nat.eqb m n then {| listening := false; backlog := rest; dir := false; accepted := Some k0 |}
+       else gsrv s m).
+    { intros m. inv H. unfold gsrv. simpl. apply nth_set_nth. auto. }
+    assert (L : length (conns s') = length (conns s)).
+    { inv H. simpl. apply length_set_nth. }
+    clear H. unfold InvBS. rewrite L.
+    assert (Sub : forall m k, In k (backlog (gsrv s' m)) -> In k (backlog (gsrv s m))).
+    { intros m k. rewrite HS. destruct (Nat.eqb m n) eqn:E; simpl; auto.
+      apply Nat.eqb_eq in E. subst. rewrite Eb. simpl. auto. }
+    pose proof (B2 n) as Hnd. rewrite Eb in Hnd. inversion Hnd as [|? ? Hnotin Hnd']. subst.
+    split; [|split; [|split]].
+    + intros m k Hin. eapply B1. eapply Sub. eauto.
+    + intros m. rewrite HS. destruct (Nat.eqb m n); simpl; auto.
+    + intros n1 n2 k Hi1 Hi2. eapply B3; eapply Sub; eauto.
+    + intros m k. rewrite HS. destruct (Nat.eqb m n) eqn:E; simpl.
+      * intros Hk. inv Hk. split.
+        -- apply (B1 n). rewrite Eb. simpl. auto.
+        -- intros m2. rewrite HS. destruct (Nat.eqb m2 n) eqn:E2; simpl; auto.
+           apply Nat.eqb_neq in E2. intros Hin. apply E2. apply (B3 m2 n k); auto.
+           rewrite Eb. simpl. auto.
+      * intros Hk. destruct (B4 _ _ Hk) as [Lk N]. split; auto.
+        intros m2 Hin. apply Sub in Hin. eapply N; eauto.
+  - grd H. splitG. inv H. apply (InvBS_same s); simpl; auto.
+    + intros m. unfold gsrv. simpl. rewrite nth_set_nth by auto. destruct (Nat.eqb m n) eqn:E; auto.
+      apply Nat.eqb_eq in E. subst. reflexivity.
+    + intros m. unfold gsrv. simpl. rewrite nth_set_nth by auto. destruct (Nat.eqb m n) eqn:E; auto.
+  - grd H. destruct (queue (gconn s k)) as [|x q'] eqn:Eq; [discriminate|].
+    cbv zeta in H. inv H. apply (InvBS_same s); simpl; auto. apply length_set_nth.
+Qed.
+
+Lemma InvBS_init : InvBS init.
+Proof.
+  unfold InvBS, gsrv. simpl.
+  split; [|split; [|split]].
+  - intros n k. destruct n; simpl; tauto.
+  - intros n. destruct n; simpl; constructor.
+  - intros n1 n2 k. destruct n1; simpl; tauto.
+  - intros n k. destruct n; simpl; discriminate.
+Qed.
+
+(* ---------- invariant 4: connections still queued in a backlog are untouched ---------- *)
+
+Lemma existsb_accepted s k :
+  existsb (fun sv => match accepted sv with Some k' => Nat.eqb k' k | None => false end) (servers s) = true ->
+  exists n, accepted (gsrv s n) = Some k.
+Proof.
+  intros H. apply existsb_exists in H. destruct H as (sv & Hin & Hm).
+  destruct (accepted sv) as [k'|] eqn:E; [|discriminate]. apply Nat.eqb_eq in Hm. subst.
+  destruct (In_nth _ _ dsrv Hin) as (n & Hn & En). exists n. unfold gsrv. rewrite En. auto.
+Qed.
+
+Definition InvGot s := forall n k, In k (backlog (gsrv s n)) -> got (gconn s k) = [].
+
+Lemma InvGot_step s l s' : InvBS s -> InvGot s -> step s l = Some s' -> InvGot s'.
+Proof.
+  intros (B1 & B2 & B3 & B4) I H. destruct l; unfold step in H.
+  - inv H. intros m k. unfold gsrv, gconn. simpl. rewrite snoc_bl. apply I.
+  - grd H. splitG. cbv zeta in H. inv H. intros m k. unfold gsrv, gconn. simpl.
+    rewrite nth_set_nth by auto.
+    assert (Old : forall m, In k (backlog (gsrv s m)) ->
+              got (nth k (conns s ++ [{| queue := []; hup := false; sent := []; got := [] |}]) dconn) = []).
+    { intros m' Hin. rewrite app_nth1 by (eapply B1; eauto). eapply I; eauto. }
+    destruct (Nat.eqb m n) eqn:E; simpl; [|apply Old].
+    rewrite in_app_iff. simpl. intros [Hin|[<-|[]]]; [eapply Old; eauto|].
+    rewrite app_nth2 by lia. rewrite Nat.sub_diag. reflexivity.
+  - grd H. splitG. cbv zeta in H. inv H. intros m k1. unfold gsrv, gconn. simpl. intros Hin.
+    rewrite nth_set_nth by auto. destruct (Nat.eqb k1 k) eqn:E; simpl.
+    + apply Nat.eqb_eq in E. subst. eapply I; eauto.
+    + eapply I; eauto.
+  - grd H. splitG. cbv zeta in H. inv H. intros m k1. unfold gsrv, gconn. simpl. intros Hin.
+    rewrite nth_set_nth by auto. destruct (Nat.eqb k1 k) eqn:E; simpl.
+    + apply Nat.eqb_eq in E. subst. eapply I; eauto.
+    + eapply I; eauto.
+  - grd H. splitG.
+    destruct (backlog (gsrv s n)) as [|k0 rest] eqn:Eb; [discriminate|].
+    destruct (queue (gconn s k0)) as [|x q'] eqn:Eq; [discriminate|].
+    pose proof (queue_nonempty_lt _ _ _ _ Eq) as Hk0.
+    pose proof (B2 n) as Hnd. rewrite Eb in Hnd. inversion Hnd as [|? ? Hnotin Hnd']. subst.
+    cbv zeta in H. inv H. intros m k. unfold gsrv, gconn. simpl.
+    rewrite nth_set_nth by auto. intros Hin.
+    assert (Hin' : In k (backlog (gsrv s m)) /\ k <> k0).
+    { destruct (Nat.eqb m n) eqn:E; simpl in Hin.
+      - apply Nat.eqb_eq in E. subst. rewrite Eb. simpl. split; auto. intros ->. auto.
+      - split; auto. intros ->. apply Nat.eqb_neq in E. apply E. apply (B3 m n k0); auto.
+        rewrite Eb. simpl. auto. }
+    destruct Hin' as [Hin' Hne]. rewrite nth_set_nth by auto.
+    apply Nat.eqb_neq in Hne. rewrite Hne. eapply I; eauto.
+  - grd H. splitG. inv H. intros m k. unfold gsrv, gconn. simpl.
+    rewrite nth_set_nth by auto. intros Hin. apply (I m).
+    destruct (Nat.eqb m n) eqn:E; auto. apply Nat.eqb_eq in E. subst. exact Hin.
+  - grd H. splitG. destruct (queue (gconn s k)) as [|x q'] eqn:Eq; [discriminate|].
+    match goal with E : existsb _ _ = true |- _ => destruct (existsb_accepted _ _ E) as [n0 Hacc] end.
+    destruct (B4 _ _ Hacc) as [_ N]. cbv zeta in H. inv H.
+    intros m k1. unfold gsrv, gconn. simpl. intros Hin.
+    rewrite nth_set_nth by auto. destruct (Nat.eqb k1 k) eqn:E; simpl.
+    + apply Nat.eqb_eq in E. subst. exfalso. eapply N; eauto.
+    + eapply I; eauto.
+Qed.
+
+Lemma InvGot_init : InvGot init.
+Proof. intros n k. unfold gsrv. simpl. destruct n; simpl; tauto. Qed.
+
+(* ---------- reachable-state packaging ---------- *)
+
+Lemma reach_Fifo ls s : run init ls = Some s -> Fifo s.
+Proof. apply (run_inv Fifo Fifo_step). apply Fifo_init. Qed.
+
+Lemma reach_InvFS ls s : run init ls = Some s -> InvFS s.
+Proof. apply (run_inv InvFS InvFS_step). apply InvFS_init. Qed.
+
+Lemma reach_InvBS ls s : run init ls = Some s -> InvBS s.
+Proof. apply (run_inv InvBS InvBS_step). apply InvBS_init. Qed.
+
+Lemma reach_InvGot ls s : run init ls = Some s -> InvBS s /\ InvGot s.
+Proof.
+  apply (run_inv (fun s => InvBS s /\ InvGot s)).
+  - intros s1 l s1' [A B] Hs. split.
+    + eapply InvBS_step; eauto.
+    + eapply InvGot_step; eauto.
+  - split; [apply InvBS_init|apply InvGot_init].
+Qed.
+
+(* The backlog invariant. *)
+Theorem backlog_ids_wf : forall ls s, run init ls = Some s ->
+  (forall n k, In k (backlog (gsrv s n)) -> k < length (conns s)) /\
+  (forall n, NoDup (backlog (gsrv s n))) /\
+  (forall n1 n2 k, In k (backlog (gsrv s n1)) -> In k (backlog (gsrv s n2)) -> n1 = n2) /\
+  (forall n k, accepted (gsrv s n) = Some k -> k < length (conns s) /\ forall m, ~ In k (backlog (gsrv s m))).
+Proof. intros ls s H. exact (reach_InvBS ls s H). Qed.
+
+Theorem backlog_untouched : forall ls s n k, run init ls = Some s ->
+  In k (backlog (gsrv s n)) -> got (gconn s k) = [].
+Proof. intros ls s n k H. destruct (reach_InvGot ls s H) as [_ G]. apply G. Qed.
+
+(* ---------- 1 ---------- *)
+
+Theorem conn_fifo : forall ls s k, run init ls = Some s -> k < length (conns s) ->
+  got (gconn s k) ++ queue (gconn s k) = sent (gconn s k).
+Proof. intros ls s k H. apply (reach_Fifo ls s H). Qed.
+
+(* ---------- 2 ---------- *)
+
+Theorem accept_returns_first : forall ls s n s', run init ls = Some s -> step s (SAccept n) = Some s' ->
+  exists k x rest, backlog (gsrv s n) = k :: rest /\ accepted (gsrv s' n) = Some k /\
+    sent (gconn s k) = x :: skipn 1 (sent (gconn s k)) /\ got (gconn s k) = [] /\ got (gconn s' k) = [x].
+Proof.
+  intros ls s n s' Hr H.
+  destruct (reach_InvGot ls s Hr) as [_ G]. pose proof (reach_Fifo ls s Hr) as F.
+  unfold step in H. grd H. splitG.
+  destruct (backlog (gsrv s n)) as [|k0 rest] eqn:Eb; [discriminate|].
+  destruct (queue (gconn s k0)) as [|x q'] eqn:Eq; [discriminate|].
+  pose proof (queue_nonempty_lt _ _ _ _ Eq) as Hk0.
+  assert (Hg : got (gconn s k0) = []). { apply (G n). rewrite Eb. simpl. auto. }
+  assert (Hs : sent (gconn s k0) = x :: q'). { rewrite <- (F k0 Hk0), Hg, Eq. reflexivity. }
+  cbv zeta in H. inv H. exists k0, x, rest.
+  split; [reflexivity|]. split; [|split; [|split]].
+  - unfold gsrv. simpl. rewrite nth_set_nth_eq by auto. reflexivity.
+  - rewrite Hs. reflexivity.
+  - exact Hg.
+  - unfold gconn at 1. simpl. rewrite nth_set_nth_eq by auto. simpl. rewrite Hg. reflexivity.
+Qed.
+
+(* ---------- 3 ---------- *)
+
+Theorem names_distinct : forall ls s, run init ls = Some s ->
+  NoDup (fs s) /\ (forall n, In n (fs s) <-> n < length (servers s) /\ listening (gsrv s n) = true).
+Proof. intros ls s H. destruct (reach_InvFS ls s H) as (A & B & _). auto. Qed.
+
+(* ---------- 4 ---------- *)
+
+Theorem clean_after : forall ls s n, run init ls = Some s -> n < length (servers s) ->
+  listening (gsrv s n) = false -> ~ In n (fs s) /\ dir (gsrv s n) = false.
+Proof.
+  intros ls s n H Hn Hl. destruct (reach_InvFS ls s H) as (A & B & C & D). split.
+  - intros Hin. apply B in Hin. destruct Hin. congruence.
+  - rewrite D; auto.
+Qed.
+
+Theorem listeners_counted : forall ls s, run init ls = Some s -> open_listeners s = length (fs s).
+Proof. intros ls s H. destruct (reach_InvFS ls s H) as (A & B & C & D). auto. Qed.
+
+(* ---------- 5 ---------- *)
+
+Theorem connect_needs_live_server : forall ls s n s', run init ls = Some s ->
+  step s (CConnect n) = Some s' -> n < length (servers s) /\ listening (gsrv s n) = true.
+Proof. intros ls s n s' _ H. unfold step in H. grd H. splitG. auto. Qed.
+
+Theorem no_connect_after_accept : forall ls s n, run init ls = Some s -> n < length (servers s) ->
+  listening (gsrv s n) = false -> step s (CConnect n) = None.
+Proof.
+  intros ls s n _ Hn Hl. unfold step. rewrite Hl. rewrite andb_false_r. reflexivity.
+Qed.
+
+(* ---------- 6 ---------- *)
+
+Theorem accept_enabled_when_ready : forall ls s n k rest x q, run init ls = Some s ->
+  n < length (servers s) -> listening (gsrv s n) = true -> backlog (gsrv s n) = k :: rest ->
+  queue (gconn s k) = x :: q -> exists s', step s (SAccept n) = Some s'.
+Proof.
+  intros ls s n k rest x q _ Hn Hl Hb Hq. unfold step.
+  apply Nat.ltb_lt in Hn. rewrite Hn, Hl, Hb, Hq. simpl. eauto.
+Qed.
+
+Print Assumptions conn_fifo.
+Print Assumptions accept_returns_first.
+Print Assumptions backlog_ids_wf.
+Print Assumptions backlog_untouched.
+Print Assumptions names_distinct.
+Print Assumptions clean_after.
+Print Assumptions listeners_counted.
+Print Assumptions connect_needs_live_server.
+Print Assumptions no_connect_after_accept.
+Print Assumptions accept_enabled_when_ready.
